@@ -29,6 +29,10 @@ type Sub struct {
 }
 
 type Pub struct {
+	// Retain / Empty: the RETAIN flag and a zero-length payload (together: "forget the retained
+	// message", which is still a message for the current subscribers on every node)
+	Retain      bool   `json:"retain,omitempty"`
+	Empty       bool   `json:"empty,omitempty"`
 	Topic       string `json:"topic"`
 	QoS         int    `json:"qos"`
 	Unreachable []int  `json:"unreachable"` // node indices that cannot be reached for this publish
@@ -176,7 +180,14 @@ func run(c Case) (f *failure, nontrivial bool) {
 			before[i] = len(k.Publishes())
 		}
 		id := uint16(20000 + pi)
-		pub.Send(sim.EncPublish(p.Topic, []byte(payload), byte(p.QoS), false, false, id))
+		if p.Empty {
+			payload = ""
+		}
+		mark := make([]int, len(cl.Nodes))
+		for ni, n := range cl.Nodes {
+			mark[ni] = len(n.Log.Appends())
+		}
+		pub.Send(sim.EncPublish(p.Topic, []byte(payload), byte(p.QoS), p.Retain, false, id))
 		if f := settle(); f != nil {
 			return f, nontrivial
 		}
@@ -188,7 +199,7 @@ func run(c Case) (f *failure, nontrivial bool) {
 		// (1) log appends per node
 		for ni, n := range cl.Nodes {
 			cnt := 0
-			for _, a := range n.Log.Appends() {
+			for _, a := range n.Log.Appends()[mark[ni]:] {
 				if a.Payload == payload && !a.Err {
 					cnt++
 				}
@@ -305,6 +316,8 @@ func TestRandom(t *testing.T) {
 		for i := 0; i < np; i++ {
 			topic := rapid.SampledFrom(topics).Draw(t, "topic")
 			qos := rapid.IntRange(0, 1).Draw(t, "pqos")
+			retain := rapid.IntRange(0, 2).Draw(t, "retain") == 0
+			empty := rapid.IntRange(0, 2).Draw(t, "empty") == 0
 			// every subset of the remote nodes is unreachable once
 			for mask := 0; mask < 1<<len(remotes); mask++ {
 				var u []int
@@ -313,7 +326,7 @@ func TestRandom(t *testing.T) {
 						u = append(u, r)
 					}
 				}
-				c.Pubs = append(c.Pubs, Pub{Topic: topic, QoS: qos, Unreachable: u})
+				c.Pubs = append(c.Pubs, Pub{Topic: topic, QoS: qos, Unreachable: u, Retain: retain, Empty: empty})
 			}
 			// and every non-empty subset of the remote nodes loses its reply once (the others reachable)
 			for mask := 1; mask < 1<<len(remotes); mask++ {
